@@ -64,6 +64,7 @@ static Outcome<A> parse_range(const typename A::Ch *first, const typename A::Ch 
   int rc;
   long libcBefore = libc_ledger().outstanding;
   if (entry == 0) rc = A::ParseSingleUriExMm(&u, first, afterLast, &ep, mm ? &mm->mm : nullptr);
+  else if (entry == 2) { mm = nullptr; rc = A::ParseSingleUriEx(&u, first, afterLast, &ep); }  // the wrapper without manager argument has code of its own
   else {
     typename A::State st;
     memset(&st, 0xA5, sizeof st);
@@ -143,9 +144,12 @@ template <class A> static Verdict check_type(const std::string &text, unsigned t
                  esc(text).c_str(), tail, o.rc, ref[i].rc, o.errOff, ref[i].errOff);
     }
   }
-  // guard pages: flush right, flush left, read-only while parsing
-  for (size_t ci = 0; ci < cuts.size(); ci++) {
-    size_t i = cuts[ci];
+  // guard pages: flush right, flush left, read-only while parsing; the empty range at the start of the text takes part
+  // in every case (nothing in front of `first` may be looked at either)
+  std::vector<size_t> gcuts = cuts;
+  if (n != 0) gcuts.push_back(0);
+  for (size_t ci = 0; ci < gcuts.size(); ci++) {
+    size_t i = gcuts[ci];
     Ch *r = gb().template right_chars<Ch>(i);
     if (i) memcpy(r, T.data(), i * sizeof(Ch));
     Ch *l = (Ch *)gb().left();
@@ -154,8 +158,11 @@ template <class A> static Verdict check_type(const std::string &text, unsigned t
     gb().readonly(true);
     Outcome<A> o = parse_range<A>(r, r + i, &mm, &err);
     Outcome<A> o2 = doLeft ? parse_range<A>(l, l + i, &mm, &err) : o;
+    Outcome<A> o3 = parse_range<A>(r, r + i, nullptr, &err, 2);
+    Outcome<A> o4 = doLeft ? parse_range<A>(l, l + i, nullptr, &err, 2) : o;
+    if (err.empty() && !(o3 == o && o4 == o)) err = "uriParseSingleUriEx and uriParseSingleUriExMm disagree";
     gb().readonly(false);
-    stats().sub_evaluations += 2;
+    stats().sub_evaluations += 4;
     VF_REQUIRE(err.empty(), "%s: guarded %zu: %s", A::name(), i, err.c_str());
     VF_REQUIRE(o == ref[i] && o2 == ref[i], "%s: guard-page placement changes the outcome at %zu", A::name(), i);
   }
